@@ -354,3 +354,25 @@ PROPS['C18'] = dict(
     assumptions=['documented shapes: scratch buffers of size*ncols, trees of getTreeNumElements(rows), power-of-two sizes'],
 )
 CFGS['init2'] = dict(cxx='g++', cflags=BASE + ' -O2 -mavx2 -ftrivial-auto-var-init=pattern', ldflags='-fopenmp')
+
+HARNESSES['h_par'] = dict(src='h_par.cpp', deps=['harness/h_ntt.cpp', 'harness/h_poseidon.cpp'])
+
+PROPS['C12'] = dict(
+    title='Parallel regions are race-free; results independent of threads and schedule',
+    jobs=[J('h_par', 'shim5', 60_000, 6_000_000, wq=8, wt=16, args=['--mode', 'seq'], tag='seq', class_prefix='seq:'),
+          J('h_par', 'tsan2', 2400, 160_000, wq=16, wt=16, args=['--mode', 'threads'], tag='tsan', class_prefix='tsan:'),
+          J('h_par', 'fast5', 6000, 600_000, wq=8, wt=16, args=['--mode', 'gomp'], tag='gomp', class_prefix='gomp:')],
+    rule='The library is linked against a stand-in for libgomp (engine/ompshim.cpp; g++ needs only GOMP_parallel and five omp_* calls) so the harness owns the schedule. rapidcheck generates routine x shape x team size x member order: '
+         'routine in {NTT, INTT, extendPol (C03-C05 configuration generator up to n=2^9), the eight Merkle builders (rows to 2^6, cols to 20, dim 1..3, batch sizes), parcpy, parSetZero (sizes to 5000)}, '
+         'team size in {1..6,8,17,64} (fewer, equal, more members than loop iterations), member order in {identity, reversed, random permutation per region}. '
+         '(a) sequential mode: team members of every parallel region run one after another in the generated order (a legal schedule: the regions contain no barriers); (b) pthread mode under ThreadSanitizer: members are real threads created by the stand-in, '
+         'so every happens-before edge is instrumented (halt_on_error: a report kills the worker, the recorded current case becomes the counterexample); (c) real libgomp with team sizes up to 33. '
+         'Oracle: output buffers bit-identical to the single-member execution (which itself is checked against the C03-C05 oracle for the transforms); zero TSan reports. '
+         'Non-trivial: team size > 1 and at least one parallel region actually executed with more than one member. distinct = distinct (routine, shape, team, order) tuples.',
+    expected_classes=['seq:team>1:sequential-permuted-order', 'tsan:team>1:pthreads(TSan)', 'gomp:team>1:real-libgomp', 'seq:routine:transform', 'seq:routine:merkle', 'seq:routine:parcpy/parSetZero',
+                      'tsan:routine:transform', 'tsan:routine:merkle', 'tsan:routine:parcpy/parSetZero', 'seq:order:reversed', 'seq:order:random-permutation', 'seq:team:more-members-than-cores/iterations'],
+    technique='schedule-controlled property-based testing: OpenMP runtime stand-in (permuted sequential member orders; pthreads under ThreadSanitizer), differential against single-member execution',
+    level_text='The harness owns the schedule: thousands of generated member orders per run must reproduce the single-thread output bit for bit, and ThreadSanitizer watches real threads created by the stand-in on the same shapes.',
+    level_note='Trusted: ThreadSanitizer (sees only accesses that executed), the stand-in implements the six runtime entry points g++ emits for these regions (static schedules are inlined by the compiler). Sequential orders do not explore sub-member interleavings; that half is TSan\'s.',
+    assumptions=['parallel regions contain no barriers/critical sections (true for this library: only "parallel for")', 'team sizes <= 64'],
+)
